@@ -416,3 +416,18 @@ REPLAY["long-blocks"] = replay_long_blocks
 GROUPS["thorough:long-blocks"] = _th.bounded_from_replay("bounded/blocks-of-up-to-132-statements", replay_long_blocks)
 # bounded stand-ins for undecided obligations (olvc/oblig.py::main_check)
 STANDINS = {"*": [dict(kind="long-blocks"), dict(kind="skeleton")]}
+
+# C01 is the composition of the statement lowerings: "the converted program behaves like the
+# source" fails as soon as one statement form evaluates something else, or in another order, than
+# Python does.  The statement-level obligations of C07 (assignment in all its forms, augmented
+# assignment, return, def, class, the loop headers) are therefore REQUIRED here as well, not only
+# pointed to (added after seed k_c01_1: `box()[0] = val()` evaluated the target object first when
+# the index is a constant; C07 failed, this check stayed green).  Their frames are C07's.
+_STATEMENT_GROUPS = ("assign:statement", "assign:get_result", "assign:leaf_targets", "assign:tuple_list", "augassign",
+                     "return", "functiondef", "classdef",
+                     "loops:while-test-evaluated-as-often-as-python", "loops:for-iterable-evaluated-once")
+for _k in _STATEMENT_GROUPS:
+    GROUPS[f"statements/{_k}"] = c07.GROUPS[_k]
+REPLAY.update({k: v for k, v in c07.REPLAY.items() if k not in REPLAY})
+NO_FRAME_GROUPS = NO_FRAME_GROUPS + tuple(f"statements/{_k}" for _k in _STATEMENT_GROUPS)
+STANDINS = {"*": STANDINS["*"] + list(c07.STANDINS.get("*", []))}
